@@ -99,9 +99,9 @@ func (p *Prog) ChanDesc(v ssa.Value) string {
 		}
 		return "call:" + n
 	case *ssa.Parameter:
-		return "param:" + x.Name()
+		return "param:" + p.ParamName(x)
 	case *ssa.FreeVar:
-		return "freevar:" + x.Name()
+		return "freevar:" + p.FreeVarName(x)
 	case *ssa.ChangeType:
 		return p.ChanDesc(x.X)
 	case *ssa.UnOp:
@@ -110,7 +110,7 @@ func (p *Prog) ChanDesc(v ssa.Value) string {
 			case *ssa.FieldAddr:
 				return "field:" + FieldOwnerName(a.X.Type(), a.Field)
 			case *ssa.FreeVar:
-				return "freevar:" + a.Name()
+				return "freevar:" + p.FreeVarName(a)
 			case *ssa.Alloc:
 				return "local:" + a.Comment
 			}
